@@ -623,8 +623,11 @@ def an_C04_window(mod, name, paths, fq):
     if n == 0:
         return []
     if bad:
+        # object identity of the event list is read off the symbolic run; a list that reaches the trace by a route the model does
+        # not follow (state object, helper) looks like "another list": a violation only with a failing window
         return [rec(ob, 'refuted', 'symbolic execution', 0, fq, bad, viol={'request': {'kind': 'window_order_case', 'decoder': name},
-                                                                           'what': '%s: %s' % (name, bad), 'solver_output': bad})]
+                                                                           'what': '%s: %s' % (name, bad), 'solver_output': bad,
+                                                                           'must_reproduce': True})]
     return [rec(ob, 'proved', 'symbolic execution (object identity on %d paths)' % n, 0, fq)]
 
 
